@@ -9,10 +9,10 @@ namespace verif {
 const PropertyInfo kInfo = {
     "C39", 8, 8, 24,
     "tape -> two Nodes with key rotation intervals from {5,7,30,300,3600} s (equal or different), a mutual PoW-valid handshake and a real loopback transport session "
-    "(B listens, A connects); B's steady clock is skewed against A's by {0,1ns,1ms,3s} (per-thread skew of the interposed clock while B ticks). History of tick(A), tick(B), "
-    "advance (to A's/B's next rotation instant exactly / +-1ns / random), send A->B, send B->A. Oracle after every step: whenever both ends report the session open, their "
+    "(B listens, A connects; B registers the handshake {0,1ns,3ms,1s} after A); B's steady clock is skewed against A's by {0,1ns,1ms,3s} (per-thread skew of the interposed clock while B ticks). History of tick(A), tick(B), "
+    "advance (to A's/B's next rotation instant exactly / +-1ns / random), send A->B, send B->A, joint step (advance past both intervals, tick A and tick B at the same instant), B restarts (same peer id, new identity key; mutual re-handshake after the cooldown, A dials again, B speaks first). Oracle after every step: whenever both ends report the session open, their "
     "session keys for each other are equal, and a payload sent now arrives byte-identical in the other end's message handler (real-time wait <= 2 s, timeout = inconclusive). "
-    "Signature distinguishes divergence without any rotation from divergence after a rotation. Non-trivial: >= 1 rotation happened on either side while the session was open "
+    "Signature distinguishes divergence without any rotation, divergence after rotations at different instants / different counts on the two ends (the listed finding) and divergence although both ends rotated at identical instants. Non-trivial: both ends rotated at the same instant, a peer restart, >= 1 rotation happened on either side while the session was open "
     "(or, while the after-rotation finding is listed, >= 2 ticks and a delivered message before the first rotation)."};
 
 namespace {
@@ -56,31 +56,49 @@ void run_case(Ctx& c) {
     const nanoseconds skewB{kSkew[t.h(4) % 4]};
     c.note("rotA=%llds rotB=%llds skewB=%lldns", (long long)ca.key_rotation_interval.count(), (long long)cb.key_rotation_interval.count(), (long long)skewB.count());
 
-    Node A(vnode::make_id(391, 0xA7), ca), B(vnode::make_id(392, 0xB7), cb);
+    // the responder registers the shared handshake a little later than the initiator (a real exchange is never simultaneous)
+    static const long long kRegGap[] = {0, 1, 3000000, 1000000000LL};
+    const nanoseconds reg_gap{kRegGap[t.h(5) % 4]};
+    c.note("reg_gap=%lldns", (long long)reg_gap.count());
+    const PeerId idB = vnode::make_id(392, 0xB7);
+    Node A(vnode::make_id(391, 0xA7), ca);
+    std::unique_ptr<Node> Bp = std::make_unique<Node>(idB, cb);
     Inbox inA, inB;
     A.set_message_handler([&](const network::TransportMessage& m) { inA.push(m); });
-    B.set_message_handler([&](const network::TransportMessage& m) { inB.push(m); });
-    struct Stopper { Node& a; Node& b; ~Stopper() { a.stop_transport(); b.stop_transport(); } } stopper{A, B};
-    B.start_transport(0);
+    struct Stopper { Node& a; std::unique_ptr<Node>& b; ~Stopper() { a.stop_transport(); if (b) b->stop_transport(); } } stopper{A, Bp};
     A.start_transport(0);
-    auto wa = A.generate_handshake_work(B.id());
-    auto wb = B.generate_handshake_work(A.id());
-    if (!wa || !wb) c.fail("C39:harness-error", "PoW not solved");
-    if (!B.perform_handshake(A.id(), A.public_identity(), *wa) || !A.perform_handshake(B.id(), B.public_identity(), *wb)) c.fail("C39:harness-error", "mutual handshake refused");
-    if (!A.connect_peer(B.id(), "127.0.0.1", B.transport_port())) {
-        c.label("connect_failed_inconclusive");
-        return;
-    }
     auto wait_for = [&](auto pred) { for (int i = 0; i < 10000; ++i) { if (pred()) return true; std::this_thread::sleep_for(std::chrono::microseconds(200)); } return false; };
     auto& sa = vnode::Access::sessions(A);
-    auto& sb = vnode::Access::sessions(B);
-    if (!wait_for([&] { return sa.is_connected(B.id()) && sb.is_connected(A.id()); })) { c.label("connect_failed_inconclusive"); return; }
-    const auto baseA = *A.session_key(B.id()), baseB = *B.session_key(A.id());
-    if (baseA != baseB) c.fail("C39:diverged-without-rotation", "the two ends hold different keys right after the shared handshake");
+    std::array<std::uint8_t, 32> baseA{}, baseB{};
+    // (re-)establish: mutual PoW-valid handshake, then A dials B.  false = inconclusive (could not connect)
+    auto establish = [&]() -> bool {
+        Node& B = *Bp;
+        B.set_message_handler([&](const network::TransportMessage& m) { inB.push(m); });
+        B.start_transport(0);
+        auto wa = A.generate_handshake_work(B.id());
+        auto wb = B.generate_handshake_work(A.id());
+        if (!wa || !wb) c.fail("C39:harness-error", "PoW not solved");
+        if (!A.perform_handshake(B.id(), B.public_identity(), *wb)) c.fail("C39:harness-error", "handshake refused by A");
+        vclock::advance(reg_gap);
+        if (!B.perform_handshake(A.id(), A.public_identity(), *wa)) c.fail("C39:harness-error", "handshake refused by B");
+        if (!A.connect_peer(B.id(), "127.0.0.1", B.transport_port())) return false;
+        auto& sb0 = vnode::Access::sessions(B);
+        if (!wait_for([&] { return sa.is_connected(B.id()) && sb0.is_connected(A.id()); })) return false;
+        baseA = *A.session_key(B.id());
+        baseB = *B.session_key(A.id());
+        if (baseA != baseB) c.fail("C39:diverged-without-rotation", "the two ends hold different keys right after the shared handshake");
+        return true;
+    };
+    if (!establish()) { c.label("connect_failed_inconclusive"); return; }
+#define B (*Bp)
+#define sb (vnode::Access::sessions(*Bp))
 
     std::uint64_t seq = 0;
     int ticks_before_rotation = 0, delivered_before_rotation = 0;
     bool rotated = false;
+    // instants (on each end's own clock) at which a tick changed that end's key for the other: two ends that rotated at the
+    // same instants the same number of times have no "uncoordinated rotation" between them
+    std::vector<long long> histA, histB;
     const bool known_after = c.is_known("C39:diverged-after-rotation");
 
     auto check = [&](const char* after) -> bool {
@@ -89,6 +107,9 @@ void run_case(Ctx& c) {
         bool rot_now = (ka && *ka != baseA) || (kb && *kb != baseB);
         if (rot_now && !rotated) { rotated = true; c.nt("rotation_while_session_open"); }
         if (!ka || !kb || *ka != *kb) {
+            if (rotated && histA == histB)
+                c.fail("C39:diverged-although-both-ends-rotated-at-the-same-instants", std::string("after ") + after + ": both ends rotated " + std::to_string(histA.size()) +
+                                                                                       " time(s) at identical instants, the session is open, and they hold different keys");
             const char* sig = rotated ? "C39:diverged-after-rotation" : "C39:diverged-without-rotation";
             c.fail(sig, std::string("after ") + after + " both ends report the session open but hold different session keys (A: " + (ka ? hex(*ka, 6) : "none") + ", B: " + (kb ? hex(*kb, 6) : "none") + ")");
         }
@@ -115,18 +136,56 @@ void run_case(Ctx& c) {
 
     for (std::size_t i = 0; i < t.nrec(); ++i) {
         Rec r = t.r(i);
-        switch (r.op() % 6) {
+        switch (r.op() % 16 == 15 ? 6 : r.op() % 16 == 14 ? 7 : r.op() % 6) {
+            case 7: {
+                // both ends become due and tick at the same virtual instant (no step is judged in between)
+                const auto ia = A.config().key_rotation_interval, ib = B.config().key_rotation_interval;
+                nanoseconds d = std::max(ia, ib) + reg_gap + seconds(1 + r.a(0) % 3);
+                c.note("|adv(%lld)+tickA+tickB", static_cast<long long>(d.count()));
+                vclock::advance(d);
+                auto ba = A.session_key(B.id());
+                A.tick();
+                if (A.session_key(B.id()) != ba) histA.push_back(vclock::now_offset().count());
+                auto bb = B.session_key(A.id());
+                vclock::set_thread_skew(skewB, skewB);
+                B.tick();
+                vclock::set_thread_skew(nanoseconds(0), nanoseconds(0));
+                if (B.session_key(A.id()) != bb) histB.push_back((vclock::now_offset() + skewB).count());
+                if (histA == histB && !histA.empty()) c.nt("both_ends_rotated_at_the_same_instant");
+                break;
+            }
+            case 6: {
+                // B comes back as a new process: same peer id, new identity key; both ends handshake again and A dials again
+                if (rotated) break;   // (keeps the listed rotation finding out of this scenario)
+                c.note("|restartB");
+                Bp->stop_transport();
+                Bp.reset();
+                if (!wait_for([&] { return !sa.is_connected(idB); })) { c.label("old_session_lingers_inconclusive"); return; }
+                cb.identity_seed = cb.identity_seed.value_or(0) + 16;
+                Bp = std::make_unique<Node>(idB, cb);
+                vclock::advance(A.config().handshake_cooldown + seconds(1));
+                histA.clear(); histB.clear();
+                if (!establish()) { c.label("reconnect_failed_inconclusive"); return; }
+                c.nt("peer_restarted_with_new_identity");
+                // the restarted peer speaks first
+                send_and_check(false);
+                break;
+            }
             case 0: {
                 c.note("|tickA");
+                auto before = A.session_key(B.id());
                 A.tick();
+                if (A.session_key(B.id()) != before) histA.push_back(vclock::now_offset().count());
                 if (!rotated) ++ticks_before_rotation;
                 break;
             }
             case 1: {
                 c.note("|tickB");
+                auto before = B.session_key(A.id());
                 vclock::set_thread_skew(skewB, skewB);
                 B.tick();
                 vclock::set_thread_skew(nanoseconds(0), nanoseconds(0));
+                if (B.session_key(A.id()) != before) histB.push_back((vclock::now_offset() + skewB).count());
                 if (!rotated) ++ticks_before_rotation;
                 break;
             }
@@ -156,7 +215,7 @@ void run_case(Ctx& c) {
             // listed finding: stop judging at the first rotation that leaves the ends on different keys
             auto ka = A.session_key(B.id()), kb = B.session_key(A.id());
             bool rot_now = (ka && *ka != baseA) || (kb && *kb != baseB);
-            if (rot_now && (!ka || !kb || *ka != *kb) && sa.is_connected(B.id()) && sb.is_connected(A.id())) {
+            if (rot_now && (!ka || !kb || *ka != *kb) && histA != histB && sa.is_connected(B.id()) && sb.is_connected(A.id())) {
                 c.count_excluded("C39:diverged-after-rotation");
                 if (ticks_before_rotation >= 2 && delivered_before_rotation >= 1) c.nt("ticks_and_delivery_before_first_rotation");
                 return;
@@ -166,4 +225,6 @@ void run_case(Ctx& c) {
     }
     if (known_after && ticks_before_rotation >= 2 && delivered_before_rotation >= 1) c.nt("ticks_and_delivery_before_first_rotation");
 }
+#undef B
+#undef sb
 }  // namespace verif
